@@ -25,6 +25,7 @@ RULE = ("frames enumerated by Hamming weight (all supports of size <= k), by byt
         "byte-value pairs per position pair; a case is non-trivial/distinct when the (length, remainder) it produced "
         "is new; model part: all 2^24 LFSR states stepped over every offset, all supports of weight <= 5")
 ASSUMPTIONS = [
+    "re-entrancy: a checksum call suspended at a source-line boundary while another runs to completion (one preemption, engine/interleave.py) must give its isolated answer",
     "frames of weight >= 5 reach the implementation only through byte(-pair) sweeps and seeded extras; for them the "
     "claim rests on GF(2) linearity of crc(), which is validated on all weight<=3(4) frames and byte pairs, not proved",
     "reference = bit-serial polynomial division modulo 0x1FFF409 (Annex 10 Vol IV 3.1.2.3.3)",
@@ -310,17 +311,39 @@ def w_seq(arg):
 DISPATCH = {}
 
 
+INTER_FRAMES = ["8D406B902015A678D4D220AA4BDA", "8D4840D6202CC371C32CE0576098", "A0001838CA3800315800007448D9",
+                "5D484FDEA248F5", "02E197B00179C3", "8d406b902015a678d4d220000000", "FFFFFFFFFFFFFFFFFFFFFFFFFFFF"]
+
+
+def w_inter(_):
+    """re-entrancy (preemption bound 1, engine.interleave): a checksum computation suspended before each of its source
+    lines while another one - other frame, other length, encode mode, the legacy routine - runs to completion."""
+    from engine.util import interleaved_ok
+    acc = Acc()
+    fr = INTER_FRAMES
+    for fn, tuples, others in (
+            ("crc", [(fr[0],), (fr[3],), (fr[5],), (fr[1], True)], [(pms.common.crc_legacy, (fr[2],))]),
+            ("crc_legacy", [(fr[0],), (fr[4],)], [(pms.common.crc, (fr[1],)), (pms.common.crc, (fr[3], True))])):
+        bad_, n = interleaved_ok(getattr(pms.common, fn), tuples, others)
+        acc.n += n
+        acc.c["interleaved_schedules"] += n
+        for a_, nm, k_ in bad_:
+            acc.bad("%s:answer_changes_when_another_call_runs_in_between" % fn, {"kind": "inter", "fn": fn, "a": list(a_), "with": nm, "preempt_before_line_event": k_})
+        acc.out.add(("inter", fn))
+    return acc.res()
+
+
 def w_any(t):
     name, arg = t
     if not DISPATCH:
-        DISPATCH.update(weight=w_weight, bytes=w_bytes, encode=w_encode, conf=w_conf, model=w_model, seq=w_seq, vanish=w_vanish)
+        DISPATCH.update(weight=w_weight, bytes=w_bytes, encode=w_encode, conf=w_conf, model=w_model, seq=w_seq, vanish=w_vanish, inter=w_inter)
     r = DISPATCH[name](arg)
     r["c"]["impl_calls_" + name] = r["c"].get("impl_calls_" + name, 0) + (0 if name == "model" else r["n"])
     return r
 
 
 def run(ctx):
-    DISPATCH.update(weight=w_weight, bytes=w_bytes, encode=w_encode, conf=w_conf, model=w_model, seq=w_seq, vanish=w_vanish)
+    DISPATCH.update(weight=w_weight, bytes=w_bytes, encode=w_encode, conf=w_conf, model=w_model, seq=w_seq, vanish=w_vanish, inter=w_inter)
     fns = ("crc", "crc_legacy")
     maxw = 4 if ctx.thorough else 3
     tasks = [("model", "bursts"), ("model", 112), ("model", 56)]
@@ -367,6 +390,7 @@ def run(ctx):
                     break
     tasks += [("seq", (sq[i:i + 4], 4 if ctx.thorough else 3)) for i in range(0, len(sq), 4)]
     ctx.cov["transitions"] = 0
+    tasks.append(("inter", None))
     ctx.pmap(w_any, tasks)
     ctx.cov.update({
         "traces_validated_against_impl": int(ctx.n),
@@ -383,6 +407,8 @@ def run(ctx):
 def replay(case):
     acc = Acc()
     k = case["kind"]
+    if k == "inter":
+        return [(s_, c_) for s_, c_ in w_inter(None)["viols"] if c_["fn"] == case["fn"]][:1]
     if k == "rem":
         n = len(case["msg"]) * 4
         _judge_frame(acc, (case["fn"],), int(case["msg"], 16), n)
